@@ -1,5 +1,5 @@
 (* Round trip of the JSON wire format of Model/Json.v: decode (encode l) = Rules l. *)
-From Coq Require Import Ascii DecimalString DecimalZ DecimalPos Decimal.
+From Coq Require Import Ascii String DecimalString DecimalZ DecimalPos DecimalFacts Decimal.
 From SG Require Import Base.Prelude Model.Json.
 
 Local Open Scope nat_scope.
@@ -17,10 +17,18 @@ Proof.
   apply Ascii.eqb_eq in H1. subst. f_equal. apply IH. exact H2.
 Qed.
 
-Lemma la_eqb_neq_sym a b : la_eqb a b = false -> la_eqb b a = false.
+Lemma la_eqb_sym a b : la_eqb a b = la_eqb b a.
 Proof.
-  intros H. destruct (la_eqb b a) eqn:E; auto. apply la_eqb_eq in E. subst. rewrite la_eqb_refl in H. discriminate.
+  destruct (la_eqb a b) eqn:E.
+  - apply la_eqb_eq in E. subst. symmetry. apply la_eqb_refl.
+  - destruct (la_eqb b a) eqn:E2; auto. apply la_eqb_eq in E2. subst. rewrite la_eqb_refl in E. discriminate.
 Qed.
+
+Lemma key_eqb_refl a : key_eqb a a = true.
+Proof. apply la_eqb_refl. Qed.
+
+Lemma key_eqb_sym a b : key_eqb a b = key_eqb b a.
+Proof. apply la_eqb_sym. Qed.
 
 (* what may follow a value: a comma or a closing brace / bracket *)
 Definition sep (r : jbytes) : Prop :=
@@ -29,9 +37,25 @@ Definition sep (r : jbytes) : Prop :=
 Lemma sep_not_num r : sep r -> match r with c :: _ => is_numchar c = false | [] => True end.
 Proof. intros [c [r' [E [H|[H|H]]]]]; subst; reflexivity. Qed.
 
-Lemma numchar_not_special c : is_numchar c = true -> Ascii.eqb c q = false /\ Ascii.eqb c "[" = false.
+Lemma sep_skip_ws r : sep r -> skip_ws r = r.
+Proof. intros [c [r' [E [H|[H|H]]]]]; subst; reflexivity. Qed.
+
+Lemma sep_comma r : sep ("," :: r).
+Proof. exists ",", r. auto. Qed.
+Lemma sep_brace r : sep ("}" :: r).
+Proof. exists "}", r. auto. Qed.
+Lemma sep_bracket r : sep ("]" :: r).
+Proof. exists "]", r. auto. Qed.
+
+(* the properties of a first character that the parser branches on *)
+Definition plain (c : ascii) : Prop :=
+  is_ws c = false /\ Ascii.eqb c "}" = false /\ Ascii.eqb c "]" = false.
+
+Lemma numchar_first c : is_numchar c = true ->
+  plain c /\ Ascii.eqb c "{" = false /\ Ascii.eqb c "[" = false /\ Ascii.eqb c q = false /\
+  Ascii.eqb c "n" = false /\ Ascii.eqb c "t" = false /\ Ascii.eqb c "f" = false.
 Proof.
-  destruct c as [[] [] [] [] [] [] [] []]; vm_compute; intros H; try discriminate; split; reflexivity.
+  destruct c as [[] [] [] [] [] [] [] []]; vm_compute; intros H; try discriminate; repeat split; reflexivity.
 Qed.
 
 Lemma strchar_not_q c : is_strchar c = true -> Ascii.eqb c q = false.
@@ -66,31 +90,8 @@ Proof.
   - apply andb_true_iff in H. destruct H as [H1 H2]. cbn. rewrite H1, (IH H2 D). reflexivity.
 Qed.
 
-Definition scalar_ok (x : scalar) : Prop :=
-  match x with
-  | SNum t => t <> [] /\ forallb is_numchar t = true
-  | SStr s => str_ok s = true
-  end.
-
-Lemma p_scalar_ok x rest : scalar_ok x -> sep rest -> p_scalar (pr_scalar x ++ rest) = Some (x, rest).
-Proof.
-  intros H S. destruct x as [t|s]; cbn [pr_scalar scalar_ok] in *.
-  - destruct H as [Hne Hn]. destruct t as [|c t]; [congruence|].
-    assert (Hc : is_numchar c = true) by (cbn in Hn; apply andb_true_iff in Hn; tauto).
-    destruct (numchar_not_special c Hc) as [Hq _].
-    unfold p_scalar. cbn [app]. rewrite Hq.
-    change (c :: t ++ rest) with ((c :: t) ++ rest).
-    rewrite (span_num_ok (c :: t) rest Hn (sep_not_num rest S)). reflexivity.
-  - rewrite quote_app. unfold p_scalar. rewrite Ascii.eqb_refl, (scan_str_ok s rest H). reflexivity.
-Qed.
-
-Lemma pr_scalar_first x : scalar_ok x -> exists c r, pr_scalar x = c :: r /\ Ascii.eqb c "[" = false.
-Proof.
-  destruct x as [t|s]; cbn.
-  - intros [Hne Hn]. destruct t as [|c t]; [congruence|]. exists c, t. split; auto.
-    cbn in Hn. apply andb_true_iff in Hn. destruct Hn as [Hc _]. apply numchar_not_special. exact Hc.
-  - intros _. exists q, (s ++ [q]). split; reflexivity.
-Qed.
+Lemma numlit_nonnil t : numlit_ok t = true -> t <> [].
+Proof. intros H E. subst. discriminate. Qed.
 
 (* ---- members and elements (generic in the value / element parser) ---------------------------- *)
 
@@ -104,16 +105,15 @@ Section Generic.
 
   Definition member_ok (kv : jbytes * A) : Prop := str_ok (fst kv) = true /\ ok (snd kv).
 
+  Lemma pr_members_one k v : pr_members pr [(k, v)] = quote k ++ ":" :: pr v.
+  Proof. reflexivity. Qed.
+
   Lemma pr_members_cons k v l :
     l <> [] -> pr_members pr ((k, v) :: l) = quote k ++ ":" :: pr v ++ "," :: pr_members pr l.
   Proof. destruct l; [congruence|reflexivity]. Qed.
 
-  Lemma sep_comma r : sep ("," :: r).
-  Proof. exists ",", r. auto. Qed.
-  Lemma sep_brace r : sep ("}" :: r).
-  Proof. exists "}", r. auto. Qed.
-  Lemma sep_bracket r : sep ("]" :: r).
-  Proof. exists "]", r. auto. Qed.
+  Lemma skip_ws_quote k r : skip_ws (quote k ++ r) = quote k ++ r.
+  Proof. rewrite quote_app. reflexivity. Qed.
 
   Lemma p_members_ok l : l <> [] -> Forall member_ok l ->
     forall fuel rest, length (pr_members pr l) <= fuel -> length (pr_members pr l) <= fuel0 ->
@@ -122,8 +122,8 @@ Section Generic.
     induction l as [|[k v] l IH]; [congruence|]. intros _ HF fuel rest Hf Hf0.
     inversion HF as [|x y [Hk Hv] HF']; subst. cbn [fst snd] in *.
     destruct l as [|kv2 l].
-    - cbn [pr_members] in *. destruct fuel as [|f]; [rewrite app_length in Hf; cbn in Hf; lia|].
-      cbn [p_members]. rewrite <- app_assoc. rewrite (p_str_ok k _ Hk). cbn [app].
+    - rewrite pr_members_one in *. destruct fuel as [|f]; [rewrite app_length in Hf; cbn in Hf; lia|].
+      cbn [p_members]. rewrite <- app_assoc. rewrite skip_ws_quote. rewrite (p_str_ok k _ Hk). cbn [app skip_ws is_ws].
       rewrite Ascii.eqb_refl.
       assert (Hl : length (pr v) <= fuel0) by (rewrite app_length in Hf0; cbn in Hf0; lia).
       rewrite (pv_ok v ("}" :: rest) Hv Hl (sep_brace rest)). reflexivity.
@@ -132,11 +132,11 @@ Section Generic.
       assert (Hlen : length (quote k ++ ":" :: pr v ++ "," :: tail) = length (quote k) + 1 + length (pr v) + 1 + length tail).
       { rewrite !app_length. cbn [length]. rewrite !app_length. cbn [length]. lia. }
       destruct fuel as [|f]; [lia|].
-      cbn [p_members]. rewrite <- app_assoc. rewrite (p_str_ok k _ Hk). cbn [app].
+      cbn [p_members]. rewrite <- app_assoc. rewrite skip_ws_quote. rewrite (p_str_ok k _ Hk). cbn [app skip_ws is_ws].
       rewrite Ascii.eqb_refl. rewrite <- app_assoc. cbn [app].
       assert (Hl : length (pr v) <= fuel0) by lia.
       rewrite (pv_ok v ("," :: tail ++ "}" :: rest) Hv Hl (sep_comma _)).
-      rewrite Ascii.eqb_refl.
+      cbn [skip_ws is_ws]. rewrite Ascii.eqb_refl.
       rewrite (IH ltac:(discriminate) HF' f rest ltac:(lia) ltac:(lia)). reflexivity.
   Qed.
 
@@ -147,23 +147,23 @@ Section Generic.
     - rewrite pr_members_cons by discriminate. cbn. eexists. reflexivity.
   Qed.
 
+  (* after the opening brace *)
   Lemma p_object_ok l fuel rest : Forall member_ok l ->
-    length (pr_object pr l) <= fuel -> length (pr_object pr l) <= fuel0 ->
-    p_object pv fuel (pr_object pr l ++ rest) = Some (l, rest).
+    length (pr_members pr l) <= fuel -> length (pr_members pr l) <= fuel0 ->
+    p_object pv fuel (pr_members pr l ++ "}" :: rest) = Some (l, rest).
   Proof.
-    intros HF Hf Hf0. unfold pr_object in *. destruct l as [|kv l].
+    intros HF Hf Hf0. destruct l as [|kv l].
     - reflexivity.
     - destruct (pr_members_first (kv :: l) ltac:(discriminate)) as [r Hr].
-      cbn [app length] in *. rewrite app_length in Hf, Hf0. cbn [length] in Hf, Hf0.
-      unfold p_object. rewrite Ascii.eqb_refl.
-      rewrite <- app_assoc. cbn [app].
+      unfold p_object.
       assert (E : pr_members pr (kv :: l) ++ "}" :: rest = q :: r ++ "}" :: rest) by (rewrite Hr; reflexivity).
-      rewrite E. change (Ascii.eqb q "}") with false. cbn iota. rewrite <- E.
-      apply p_members_ok; auto; try discriminate; lia.
+      rewrite E. change (skip_ws (q :: r ++ "}" :: rest)) with (q :: r ++ "}" :: rest).
+      change (Ascii.eqb q "}") with false. cbn iota. rewrite <- E.
+      apply p_members_ok; auto; discriminate.
   Qed.
 
-  (* elements *)
-  Hypothesis pr_first : forall v, ok v -> exists c r, pr v = c :: r /\ Ascii.eqb c "]" = false.
+  (* elements: a printed element starts with a character that is neither whitespace nor a closer *)
+  Hypothesis pr_first : forall v, ok v -> exists c r, pr v = c :: r /\ plain c.
 
   Lemma pr_elems_cons x l : l <> [] -> pr_elems pr (x :: l) = pr x ++ "," :: pr_elems pr l.
   Proof. destruct l; [congruence|reflexivity]. Qed.
@@ -178,7 +178,7 @@ Section Generic.
     destruct l as [|x2 l].
     - cbn [pr_elems] in *. destruct fuel as [|f]; [rewrite Ec in Hf; cbn in Hf; lia|].
       cbn [p_elems]. rewrite (pv_ok x ("]" :: rest) Hx Hf0 (sep_bracket rest)).
-      change (Ascii.eqb "]" ",") with false. cbn iota. rewrite Ascii.eqb_refl. reflexivity.
+      cbn [skip_ws is_ws]. change (Ascii.eqb "]" ",") with false. cbn iota. rewrite Ascii.eqb_refl. reflexivity.
     - rewrite pr_elems_cons in * by discriminate.
       set (tail := pr_elems pr (x2 :: l)) in *.
       rewrite app_length in Hf, Hf0. cbn [length] in Hf, Hf0.
@@ -186,81 +186,109 @@ Section Generic.
       destruct fuel as [|f]; [lia|].
       cbn [p_elems]. rewrite <- app_assoc. cbn [app].
       rewrite (pv_ok x ("," :: tail ++ "]" :: rest) Hx ltac:(lia) (sep_comma _)).
-      rewrite Ascii.eqb_refl.
+      cbn [skip_ws is_ws]. rewrite Ascii.eqb_refl.
       rewrite (IH ltac:(discriminate) HF' f rest ltac:(lia) ltac:(lia)). reflexivity.
   Qed.
 
+  (* after the opening bracket *)
   Lemma p_array_ok l fuel rest : Forall ok l ->
-    length (pr_array pr l) <= fuel -> length (pr_array pr l) <= fuel0 ->
-    p_array pv fuel (pr_array pr l ++ rest) = Some (l, rest).
+    length (pr_elems pr l) <= fuel -> length (pr_elems pr l) <= fuel0 ->
+    p_array pv fuel (pr_elems pr l ++ "]" :: rest) = Some (l, rest).
   Proof.
-    intros HF Hf Hf0. unfold pr_array in *. destruct l as [|x l].
+    intros HF Hf Hf0. destruct l as [|x l].
     - reflexivity.
     - assert (Hx : ok x) by (inversion HF; auto).
-      destruct (pr_first x Hx) as [c [r [Ec Hc]]].
-      cbn [app length] in *. rewrite app_length in Hf, Hf0. cbn [length] in Hf, Hf0.
-      unfold p_array. rewrite Ascii.eqb_refl. rewrite <- app_assoc. cbn [app].
+      destruct (pr_first x Hx) as [c [r [Ec [Hw [_ Hc]]]]].
+      unfold p_array.
       assert (E : exists r2, pr_elems pr (x :: l) ++ "]" :: rest = c :: r2).
       { destruct l; [cbn; rewrite Ec; eexists; reflexivity|].
         rewrite pr_elems_cons by discriminate. rewrite Ec. cbn. eexists. reflexivity. }
-      destruct E as [r2 E]. rewrite E, Hc. rewrite <- E.
-      apply p_elems_ok; auto; try discriminate; lia.
+      destruct E as [r2 E]. rewrite E. cbn [skip_ws]. rewrite Hw, Hc. rewrite <- E.
+      apply p_elems_ok; auto; discriminate.
   Qed.
 End Generic.
 
-(* ---- values and documents ------------------------------------------------------------------ *)
+(* ---- value trees ------------------------------------------------------------------------------ *)
 
-Definition flat_ok (f : flat) : Prop := Forall (member_ok scalar scalar_ok) f.
+Fixpoint jv_ok (v : jv) : bool :=
+  match v with
+  | JNull | JBool _ => true
+  | JNum t => forallb is_numchar t && numlit_ok t
+  | JStr s => str_ok s
+  | JArr l => forallb jv_ok l
+  | JObj m => forallb (fun kv => let '(k, x) := kv in str_ok k && jv_ok x) m
+  end.
 
-Definition value_ok (v : value) : Prop :=
-  match v with VS x => scalar_ok x | VA items => Forall flat_ok items end.
-
-Definition obj_ok (o : obj) : Prop := Forall (member_ok value value_ok) o.
-
-Lemma object_first {A} (pr : A -> jbytes) l : exists c r, pr_object pr l = c :: r /\ Ascii.eqb c "]" = false.
-Proof. unfold pr_object. exists "{". eexists. split; reflexivity. Qed.
-
-Lemma p_flat_ok fuel f rest :
-  flat_ok f -> length (pr_object pr_scalar f) <= fuel -> sep rest ->
-  p_object p_scalar fuel (pr_object pr_scalar f ++ rest) = Some (f, rest).
+Lemma pr_jv_first v : jv_ok v = true -> exists c r, pr_jv v = c :: r /\ plain c.
 Proof.
-  intros H Hf _. apply (p_object_ok scalar p_scalar pr_scalar scalar_ok fuel); auto.
-  intros v r Hv _ S. apply p_scalar_ok; auto.
+  destruct v as [|[]|t|s|l|m]; cbn [pr_jv jv_ok]; intros H;
+    try (eexists; eexists; split; [reflexivity | repeat split; reflexivity]).
+  apply andb_true_iff in H. destruct H as [Hn Hl].
+  destruct t as [|c t]; [discriminate|]. exists c, t. split; auto.
+  cbn in Hn. apply andb_true_iff in Hn. destruct Hn as [Hc _]. apply numchar_first. exact Hc.
 Qed.
 
-Lemma p_value_ok fuel v rest :
-  value_ok v -> length (pr_value v) <= fuel -> sep rest ->
-  p_value fuel (pr_value v ++ rest) = Some (v, rest).
+Lemma p_lit_app w rest : p_lit w (w ++ rest) = Some rest.
+Proof. induction w as [|c w IH]; cbn; auto. rewrite Ascii.eqb_refl. exact IH. Qed.
+
+Lemma p_jv_ok : forall fuel v rest,
+  jv_ok v = true -> length (pr_jv v) <= fuel -> sep rest ->
+  p_jv fuel (pr_jv v ++ rest) = Some (v, rest).
 Proof.
-  intros H Hf S. destruct v as [x|items]; cbn [pr_value value_ok] in *.
-  - destruct (pr_scalar_first x H) as [c [r [E Hc]]].
-    unfold p_value. rewrite E. cbn [app]. rewrite Hc. change (c :: r ++ rest) with ((c :: r) ++ rest). rewrite <- E.
-    rewrite (p_scalar_ok x rest H S). reflexivity.
-  - unfold p_value. unfold pr_array at 1. cbn [app]. rewrite Ascii.eqb_refl.
-    change ("[" :: (pr_elems (pr_object pr_scalar) items ++ ["]"]) ++ rest)
-      with (pr_array (pr_object pr_scalar) items ++ rest).
-    rewrite (p_array_ok flat (p_object p_scalar fuel) (pr_object pr_scalar) flat_ok fuel); auto.
-    + intros f r Hfl Hl Sr. apply p_flat_ok; auto.
-    + intros f _. apply object_first.
+  induction fuel as [|f IH]; intros v rest Hok Hlen S.
+  - destruct (pr_jv_first v Hok) as [c [r [E _]]]. rewrite E in Hlen. cbn in Hlen. lia.
+  - destruct v as [|b|t|s|l|m]; cbn [pr_jv jv_ok] in *.
+    + cbn [p_jv]. reflexivity.
+    + destruct b; cbn [p_jv]; reflexivity.
+    + apply andb_true_iff in Hok. destruct Hok as [Hn Hl].
+      destruct t as [|c t]; [discriminate|].
+      assert (Hc : is_numchar c = true) by (cbn in Hn; apply andb_true_iff in Hn; tauto).
+      destruct (numchar_first c Hc) as [[Hw _] [H1 [H2 [H3 [H4 [H5 H6]]]]]].
+      cbn [p_jv app skip_ws]. rewrite Hw, H1, H2, H3, H4, H5, H6.
+      change (c :: t ++ rest) with ((c :: t) ++ rest).
+      rewrite (span_num_ok (c :: t) rest Hn (sep_not_num rest S)). rewrite Hl. reflexivity.
+    + rewrite quote_app. cbn [p_jv].
+      change (skip_ws (q :: s ++ q :: rest)) with (q :: s ++ q :: rest).
+      change (Ascii.eqb q "{") with false. change (Ascii.eqb q "[") with false. cbn iota.
+      rewrite Ascii.eqb_refl. rewrite (scan_str_ok s rest Hok). reflexivity.
+    + unfold pr_array in *. cbn [app length] in *. rewrite app_length in Hlen. cbn [length] in Hlen.
+      cbn [p_jv skip_ws is_ws]. change (Ascii.eqb "[" "{") with false. cbn iota. rewrite Ascii.eqb_refl.
+      rewrite <- app_assoc. cbn [app].
+      rewrite (p_array_ok jv (p_jv f) pr_jv (fun x => jv_ok x = true) f).
+      * reflexivity.
+      * intros x r Hx Hl Sr. apply IH; auto.
+      * intros x Hx. apply pr_jv_first. exact Hx.
+      * apply Forall_forall. rewrite forallb_forall in Hok. exact Hok.
+      * rewrite app_length. cbn [length]. lia.
+      * lia.
+    + unfold pr_object in *. cbn [app length] in *. rewrite app_length in Hlen. cbn [length] in Hlen.
+      cbn [p_jv skip_ws is_ws]. rewrite Ascii.eqb_refl.
+      rewrite <- app_assoc. cbn [app].
+      rewrite (p_object_ok jv (p_jv f) pr_jv (fun x => jv_ok x = true) f).
+      * reflexivity.
+      * intros x r Hx Hl Sr. apply IH; auto.
+      * apply Forall_forall. intros [k x] Hin. rewrite forallb_forall in Hok. specialize (Hok _ Hin).
+        cbn in Hok. apply andb_true_iff in Hok. split; cbn; tauto.
+      * rewrite app_length. cbn [length]. lia.
+      * lia.
 Qed.
 
-Lemma p_obj_ok fuel o rest :
-  obj_ok o -> length (pr_object pr_value o) <= fuel -> sep rest ->
-  p_object (p_value fuel) fuel (pr_object pr_value o ++ rest) = Some (o, rest).
+(* a printed array, as a whole document *)
+Lemma parse_array_ok l : forallb jv_ok l = true -> parse (pr_jv (JArr l)) = Some (JArr l).
 Proof.
-  intros H Hf _. apply (p_object_ok value (p_value fuel) pr_value value_ok fuel); auto.
-  intros v r Hv Hl S. apply p_value_ok; auto.
-Qed.
-
-Lemma parse_ok d : Forall obj_ok d -> parse (pr_doc d) = Some d.
-Proof.
-  intros H. unfold parse, p_doc.
-  set (n := length (pr_doc d)).
-  assert (Hn : length (pr_array (pr_object pr_value) d) <= n) by (unfold n, pr_doc; lia).
-  replace (pr_doc d) with (pr_array (pr_object pr_value) d ++ []) by (rewrite app_nil_r; reflexivity).
-  rewrite (p_array_ok obj (p_object (p_value n) n) (pr_object pr_value) obj_ok n); auto.
-  - intros o r Ho Hl S. apply p_obj_ok; auto.
-  - intros o _. apply object_first.
+  intros H. unfold parse.
+  set (s := pr_jv (JArr l)).
+  assert (E : s = "[" :: pr_elems pr_jv l ++ ["]"]) by reflexivity.
+  destruct (length s) as [|f] eqn:Len; [rewrite E in Len; discriminate|].
+  rewrite E. cbn [p_jv skip_ws is_ws]. change (Ascii.eqb "[" "{") with false. cbn iota. rewrite Ascii.eqb_refl.
+  rewrite E in Len. cbn [length] in Len. rewrite app_length in Len. cbn [length] in Len.
+  rewrite (p_array_ok jv (p_jv f) pr_jv (fun x => jv_ok x = true) f).
+  - reflexivity.
+  - intros x r Hx Hl Sr. apply p_jv_ok; auto.
+  - intros x Hx. apply pr_jv_first. exact Hx.
+  - apply Forall_forall. rewrite forallb_forall in H. exact H.
+  - rewrite app_length. cbn [length]. lia.
+  - lia.
 Qed.
 
 (* ---- integers ----------------------------------------------------------------------------------- *)
@@ -291,106 +319,221 @@ Proof.
   - destruct z; cbn; try discriminate. intros H. inversion H. eapply Unsigned.to_uint_nonnil; eauto.
 Qed.
 
-(* ---- schema layer --------------------------------------------------------------------------------- *)
-
-Lemma dec_enc_item it : dec_item (enc_item it) = Some it.
+Lemma skip_digits_all d : snd (skip_digits (B (NilEmpty.string_of_uint d))) = [].
 Proof.
-  destruct it as [[k s] t]. unfold dec_item, enc_item.
-  change (lookup (B "valKind") _) with (Some (SNum (print_int k))).
-  change (lookup (B "valStr") _) with (Some (SStr s)).
-  change (lookup (B "threshold") _) with (Some (SNum (print_int t))).
-  cbn iota. rewrite !parse_print_int. reflexivity.
+  induction d; cbn [NilEmpty.string_of_uint B list_ascii_of_string skip_digits is_digit]; auto;
+    fold (B (NilEmpty.string_of_uint d)); destruct (skip_digits (B (NilEmpty.string_of_uint d))); cbn in *; auto.
 Qed.
 
-Lemma dec_enc_items l : dec_items (map enc_item l) = Some l.
-Proof. induction l as [|it l IH]; cbn [map dec_items]; [reflexivity|]. rewrite dec_enc_item, IH. reflexivity. Qed.
+(* a positive number's decimal digits do not start with 0 *)
+Lemma pos_to_uint_not_D0 p u : Pos.to_uint p <> D0 u.
+Proof.
+  intros E.
+  assert (N : unorm (Pos.to_uint p) = Pos.to_uint p).
+  { rewrite <- (Unsigned.to_of (Pos.to_uint p)). rewrite Unsigned.of_to. reflexivity. }
+  rewrite E in N. rewrite unorm_D0 in N.
+  assert (Hu : u = Nil \/ u <> Nil) by (destruct u; [left; reflexivity | right; discriminate ..]).
+  destruct Hu as [Hu|Hu].
+  - subst u. apply (Unsigned.to_uint_nonzero p). exact E.
+  - pose proof (nb_digits_unorm u Hu) as L. rewrite N in L. cbn [nb_digits] in L. lia.
+Qed.
+
+Lemma numlit_uint_pos p : numlit_ok (B (NilEmpty.string_of_uint (Pos.to_uint p))) = true.
+Proof.
+  destruct (Pos.to_uint p) as [|u|u|u|u|u|u|u|u|u|u] eqn:E;
+    try (unfold numlit_ok; cbn [NilEmpty.string_of_uint B list_ascii_of_string];
+         fold (B (NilEmpty.string_of_uint u)); cbn [Ascii.eqb Bool.eqb is_digit]; cbn;
+         rewrite skip_digits_all; reflexivity).
+  - exfalso. eapply Unsigned.to_uint_nonnil; eauto.
+  - exfalso. eapply pos_to_uint_not_D0; eauto.
+Qed.
+
+Lemma nz_string_pos p : NilZero.string_of_uint (Pos.to_uint p) = NilEmpty.string_of_uint (Pos.to_uint p).
+Proof.
+  unfold NilZero.string_of_uint. destruct (Pos.to_uint p) eqn:E; auto.
+  exfalso. eapply Unsigned.to_uint_nonnil; eauto.
+Qed.
+
+Lemma numlit_print_int z : numlit_ok (print_int z) = true.
+Proof.
+  unfold print_int. destruct z as [|p|p]; cbn [Z.to_int NilZero.string_of_int].
+  - reflexivity.
+  - rewrite nz_string_pos. apply numlit_uint_pos.
+  - rewrite nz_string_pos.
+    assert (H := numlit_uint_pos p). revert H.
+    unfold numlit_ok. cbn [B list_ascii_of_string]. fold (B (NilEmpty.string_of_uint (Pos.to_uint p))).
+    rewrite Ascii.eqb_refl.
+    destruct (B (NilEmpty.string_of_uint (Pos.to_uint p))) as [|c r] eqn:E; [discriminate|].
+    destruct (Ascii.eqb c "-") eqn:Ec; [|auto].
+    apply Ascii.eqb_eq in Ec. subst c. intros _.
+    assert (D := uint_numchars (Pos.to_uint p)). rewrite E in D.
+    exfalso.
+    (* the digits of a positive number contain no minus sign *)
+    clear - E. revert E. generalize (Pos.to_uint p). intros d. destruct d; cbn; intros X; inversion X.
+Qed.
+
+Lemma print_int_neg z : match print_int z with c :: _ => Ascii.eqb c "-" | [] => false end = (z <? 0)%Z.
+Proof.
+  unfold print_int. destruct z as [|p|p]; cbn [Z.to_int NilZero.string_of_int]; try reflexivity.
+  rewrite nz_string_pos. destruct (Pos.to_uint p) eqn:E; cbn; reflexivity.
+Qed.
+
+Lemma dec_print_int lo hi z : in_range lo hi z = true -> dec_int lo hi (print_int z) = Some z.
+Proof.
+  unfold in_range, dec_int. intros H. rewrite parse_print_int. rewrite print_int_neg.
+  apply andb_true_iff in H. destruct H as [H1 H2]. rewrite H1, H2. cbn [andb].
+  destruct (z <? 0)%Z eqn:N; cbn [negb orb]; [|reflexivity].
+  apply Z.ltb_lt in N. apply Z.leb_le in H1.
+  destruct (lo <? 0)%Z eqn:L; [reflexivity|]. apply Z.ltb_ge in L. lia.
+Qed.
+
+(* ---- schema layer --------------------------------------------------------------------------------- *)
+
+Lemma dec_enc_item it : item_ok it = true -> dec_item (enc_item it) = Some it.
+Proof.
+  destruct it as [[k s] t]. unfold item_ok. intros H.
+  apply andb_true_iff in H. destruct H as [H Ht]. apply andb_true_iff in H. destruct H as [Hk Hs].
+  unfold dec_item, enc_item. cbn [dec_members].
+  unfold set_item at 1. unfold dflt_item.
+  change (key_eqb (B "valKind") (B "valKind")) with true. cbn iota.
+  rewrite (dec_print_int _ _ k Hk).
+  unfold set_item at 1.
+  change (key_eqb (B "valStr") (B "valKind")) with false.
+  change (key_eqb (B "valStr") (B "valStr")) with true. cbn iota.
+  unfold set_item at 1.
+  change (key_eqb (B "threshold") (B "valKind")) with false.
+  change (key_eqb (B "threshold") (B "valStr")) with false.
+  change (key_eqb (B "threshold") (B "threshold")) with true. cbn iota.
+  rewrite (dec_print_int _ _ t Ht). reflexivity.
+Qed.
+
+Lemma dec_enc_items l : forallb item_ok l = true -> dec_all dec_item (map enc_item l) = Some l.
+Proof.
+  induction l as [|it l IH]; cbn [map dec_all forallb]; intros H; [reflexivity|].
+  apply andb_true_iff in H. destruct H as [H1 H2]. rewrite (dec_enc_item it H1), (IH H2). reflexivity.
+Qed.
 
 Lemma dec_enc_val ty v : val_ok ty v = true -> dec_val ty (enc_val v) = Some v.
 Proof.
   destruct ty, v; cbn [val_ok enc_val dec_val]; try discriminate; intros H.
   - reflexivity.
-  - rewrite parse_print_int. reflexivity.
-  - unfold lit_ok in H. apply andb_true_iff in H. destruct H as [_ H]. rewrite H. reflexivity.
-  - rewrite dec_enc_items. reflexivity.
+  - rewrite (dec_print_int _ _ _ H). reflexivity.
+  - reflexivity.
+  - rewrite (dec_enc_items _ H). reflexivity.
 Qed.
 
-Fixpoint all_lookup (sch : schema) (r : wrule) (o : obj) : Prop :=
-  match sch, r with
-  | (k, _) :: s', v :: r' => lookup k o = Some (enc_val v) /\ all_lookup s' r' o
-  | _, _ => True
-  end.
+Lemma enc_val_not_null v : enc_val v <> JNull.
+Proof. destruct v; discriminate. Qed.
 
-Lemma dec_rule_ok sch : forall r o, rule_ok sch r = true -> all_lookup sch r o -> dec_rule sch o = Some r.
+(* setting the field in the middle of the schema *)
+Lemma set_field_at k ty v y : dec_val ty v = Some y -> v <> JNull ->
+  forall pre rpre suf x cur',
+  length pre = length rpre ->
+  (forall k', In k' (map fst pre) -> key_eqb k k' = false) ->
+  set_field (pre ++ (k, ty) :: suf) k v (rpre ++ x :: cur') = Some (rpre ++ y :: cur').
 Proof.
-  induction sch as [|[k ty] sch IH]; intros [|v r] o H L; cbn in H; try discriminate; [reflexivity|].
-  apply andb_true_iff in H. destruct H as [H1 H2]. destruct L as [L1 L2].
-  cbn [dec_rule]. rewrite L1, (dec_enc_val ty v H1), (IH r o H2 L2). reflexivity.
+  intros Hd Hn. induction pre as [|[k' ty'] pre IH]; intros [|x0 rpre] suf x cur' Hl Hk; cbn in Hl; try discriminate.
+  - cbn [app set_field]. rewrite key_eqb_refl.
+    destruct v; try congruence; rewrite Hd; reflexivity.
+  - cbn [app set_field]. rewrite (Hk k' ltac:(cbn; auto)).
+    rewrite (IH rpre suf x cur' ltac:(lia)); [reflexivity|].
+    intros k2 Hin. apply Hk. cbn. auto.
 Qed.
 
-Lemma all_lookup_weaken sch : forall r o k x,
-  existsb (la_eqb k) (map fst sch) = false -> all_lookup sch r o -> all_lookup sch r ((k, x) :: o).
+Lemma keys_distinct_mid a : forall k b k',
+  keys_distinct (a ++ k :: b) = true -> In k' a -> key_eqb k k' = false.
 Proof.
-  induction sch as [|[k' ty] sch IH]; intros [|v r] o k x H L; cbn [all_lookup] in *; auto.
-  cbn [map fst existsb] in H. apply orb_false_iff in H. destruct H as [H1 H2].
-  destruct L as [L1 L2]. split; [|apply IH; auto].
-  cbn [lookup]. rewrite (la_eqb_neq_sym _ _ H1). exact L1.
+  induction a as [|x a IH]; intros k b k' H Hin; [destruct Hin|].
+  cbn [app keys_distinct] in H. apply andb_true_iff in H. destruct H as [H1 H2].
+  destruct Hin as [E|Hin].
+  - subst x. rewrite key_eqb_sym.
+    destruct (key_eqb k' k) eqn:E; auto.
+    assert (X : existsb (key_eqb k') (a ++ k :: b) = true).
+    { apply existsb_exists. exists k. split; [apply in_or_app; right; left; reflexivity|exact E]. }
+    rewrite X in H1. discriminate.
+  - eapply IH; eauto.
 Qed.
 
-Lemma all_lookup_enc sch : forall r,
-  keys_distinct (map fst sch) = true -> rule_ok sch r = true -> all_lookup sch r (enc_rule sch r).
+Lemma dec_members_enc : forall suf rsuf pre rpre,
+  rule_ok suf rsuf = true -> length pre = length rpre ->
+  keys_distinct (map fst (pre ++ suf)) = true ->
+  dec_members (set_field (pre ++ suf)) (enc_members suf rsuf) (rpre ++ defaults suf) = Some (rpre ++ rsuf).
 Proof.
-  induction sch as [|[k ty] sch IH]; intros [|v r] D H; cbn in H; try discriminate; cbn [all_lookup enc_rule]; auto.
-  apply andb_true_iff in H. destruct H as [_ H2].
-  cbn [map fst keys_distinct] in D. apply andb_true_iff in D. destruct D as [D1 D2].
-  split.
-  - cbn [lookup]. rewrite la_eqb_refl. reflexivity.
-  - apply all_lookup_weaken; [|apply IH; auto]. destruct (existsb (la_eqb k) (map fst sch)); [discriminate|reflexivity].
+  induction suf as [|[k ty] suf IH]; intros [|v r] pre rpre H Hl D; cbn in H; try discriminate.
+  - reflexivity.
+  - apply andb_true_iff in H. destruct H as [H1 H2].
+    cbn [enc_members dec_members defaults map snd].
+    fold (defaults suf).
+    rewrite (set_field_at k ty (enc_val v) v (dec_enc_val ty v H1) (enc_val_not_null v) pre rpre suf (dflt ty) (defaults suf) Hl).
+    + replace (pre ++ (k, ty) :: suf) with ((pre ++ [(k, ty)]) ++ suf) by (rewrite <- app_assoc; reflexivity).
+      replace (rpre ++ v :: defaults suf) with ((rpre ++ [v]) ++ defaults suf) by (rewrite <- app_assoc; reflexivity).
+      replace (rpre ++ v :: r) with ((rpre ++ [v]) ++ r) by (rewrite <- app_assoc; reflexivity).
+      apply IH; auto.
+      * rewrite !app_length. cbn. lia.
+      * rewrite <- app_assoc. exact D.
+    + intros k' Hin. rewrite map_app in D. cbn [map fst] in D. eapply keys_distinct_mid; eauto.
 Qed.
 
-Lemma enc_val_ok ty v : val_ok ty v = true -> value_ok (enc_val v).
+Lemma dec_rule_enc sch r : schema_ok sch = true -> rule_ok sch r = true ->
+  dec_rule sch (enc_rule sch r) = Some (Some r).
 Proof.
-  destruct ty, v; cbn [val_ok enc_val value_ok scalar_ok]; try discriminate; intros H.
-  - exact H.
-  - apply print_int_ok.
-  - unfold lit_ok in H. apply andb_true_iff in H. destruct H as [H1 H2]. split; [|exact H1].
-    intros E. subst. discriminate.
-  - apply Forall_forall. intros f Hf. apply in_map_iff in Hf. destruct Hf as [[[k s] t] [E Hin]]. subst f.
-    assert (Hs : str_ok s = true).
-    { rewrite forallb_forall in H. apply (H (k, s, t) Hin). }
-    unfold flat_ok, enc_item. repeat constructor; cbn; auto; apply print_int_ok.
-Qed.
-
-Lemma enc_rule_ok sch : forall r,
-  forallb (fun kt => str_ok (fst kt)) sch = true -> rule_ok sch r = true -> obj_ok (enc_rule sch r).
-Proof.
-  induction sch as [|[k ty] sch IH]; intros [|v r] K H; cbn in H; try discriminate; cbn [enc_rule]; try constructor.
-  - cbn [forallb fst] in K. apply andb_true_iff in K. apply andb_true_iff in H. split; cbn; [tauto|].
-    apply (enc_val_ok ty); tauto.
-  - cbn [forallb] in K. apply andb_true_iff in K. apply andb_true_iff in H. apply IH; tauto.
+  intros S H. unfold schema_ok in S. apply andb_true_iff in S. destruct S as [_ D].
+  unfold dec_rule, enc_rule.
+  pose proof (dec_members_enc sch r [] [] H eq_refl D) as X. cbn [app] in X.
+  rewrite X. reflexivity.
 Qed.
 
 Lemma dec_rules_ok sch l :
   schema_ok sch = true -> forallb (rule_ok sch) l = true ->
-  dec_rules sch (map (enc_rule sch) l) = Some l.
+  dec_all (dec_rule sch) (map (enc_rule sch) l) = Some (map Some l).
 Proof.
-  intros S. unfold schema_ok in S. apply andb_true_iff in S. destruct S as [S D].
-  induction l as [|r l IH]; cbn [map dec_rules forallb]; intros H; [reflexivity|].
+  intros S. induction l as [|r l IH]; cbn [map dec_all forallb]; intros H; [reflexivity|].
   apply andb_true_iff in H. destruct H as [H1 H2].
-  rewrite (dec_rule_ok sch r _ H1 (all_lookup_enc sch r D H1)), (IH H2). reflexivity.
+  rewrite (dec_rule_enc sch r S H1), (IH H2). reflexivity.
 Qed.
 
-(* the wire round trip, for any schema with distinct printable keys *)
+(* the encoder's trees print into the subset and parse back *)
+Lemma enc_item_ok it : item_ok it = true -> jv_ok (enc_item it) = true.
+Proof.
+  destruct it as [[k s] t]. unfold item_ok. intros H.
+  apply andb_true_iff in H. destruct H as [H _]. apply andb_true_iff in H. destruct H as [_ Hs].
+  cbn [enc_item jv_ok forallb].
+  destruct (print_int_ok k) as [_ Hk]. destruct (print_int_ok t) as [_ Ht].
+  rewrite Hk, Ht, !numlit_print_int, Hs. reflexivity.
+Qed.
+
+Lemma enc_val_ok ty v : val_ok ty v = true -> jv_ok (enc_val v) = true.
+Proof.
+  destruct ty, v; cbn [val_ok enc_val jv_ok]; try discriminate; intros H.
+  - exact H.
+  - destruct (print_int_ok z) as [_ Hz]. rewrite Hz, numlit_print_int. reflexivity.
+  - exact H.
+  - apply forallb_forall. intros x Hx. apply in_map_iff in Hx. destruct Hx as [it [E Hin]]. subst x.
+    apply enc_item_ok. rewrite forallb_forall in H. apply H. exact Hin.
+Qed.
+
+Lemma enc_members_ok sch : forall r,
+  forallb (fun kt => str_ok (fst kt)) sch = true -> rule_ok sch r = true ->
+  forallb (fun kv : jbytes * jv => let '(k, x) := kv in str_ok k && jv_ok x) (enc_members sch r) = true.
+Proof.
+  induction sch as [|[k ty] sch IH]; intros [|v r] K H; cbn in H; try discriminate; cbn [enc_members forallb]; auto.
+  cbn [forallb fst] in K. apply andb_true_iff in K. destruct K as [K1 K2].
+  apply andb_true_iff in H. destruct H as [H1 H2].
+  rewrite K1, (enc_val_ok ty v H1), (IH r K2 H2). reflexivity.
+Qed.
+
+(* the wire round trip, for any schema with printable keys that are distinct up to case *)
 Theorem wire_roundtrip sch l :
   schema_ok sch = true -> forallb (rule_ok sch) l = true ->
-  decode sch (encode sch l) = Rules l.
+  decode sch (encode sch l) = Rules false (map Some l).
 Proof.
   intros S H. unfold decode, encode.
-  assert (Hd : Forall obj_ok (map (enc_rule sch) l)).
-  { apply Forall_forall. intros o Ho. apply in_map_iff in Ho. destruct Ho as [r [E Hin]]. subst o.
-    unfold schema_ok in S. apply andb_true_iff in S. destruct S as [S _]. apply andb_true_iff in S. destruct S as [_ S].
-    apply enc_rule_ok; auto. rewrite forallb_forall in H. apply H. exact Hin. }
-  rewrite (parse_ok _ Hd). rewrite (dec_rules_ok sch l S H).
-  unfold pr_doc, pr_array. reflexivity.
+  assert (Hd : forallb jv_ok (map (enc_rule sch) l) = true).
+  { apply forallb_forall. intros o Ho. apply in_map_iff in Ho. destruct Ho as [r [E Hin]]. subst o.
+    unfold schema_ok in S. apply andb_true_iff in S. destruct S as [S _].
+    cbn [enc_rule jv_ok]. apply enc_members_ok; auto. rewrite forallb_forall in H. apply H. exact Hin. }
+  rewrite (parse_array_ok _ Hd). rewrite (dec_rules_ok sch l S H).
+  reflexivity.
 Qed.
 
 Lemma schemas_ok : forall k, schema_ok (schema_of k) = true.
@@ -401,3 +544,12 @@ Proof.
   destruct (k =? 2)%Z; [vm_compute; reflexivity|].
   destruct (k =? 3)%Z; vm_compute; reflexivity.
 Qed.
+
+(* the encoder's output lies in the byte alphabet of the model, apart from the exponent guard on
+   float literals, which is a premise on the literals *)
+Lemma conv_items_enc itab l : forallb item_ok l = true ->
+  match dec_all dec_item (map enc_item l) with
+  | Some l' => conv_items itab l' = conv_items itab l
+  | None => False
+  end.
+Proof. intros H. rewrite (dec_enc_items l H). reflexivity. Qed.
